@@ -126,6 +126,7 @@ func faultPositions(r *vh.Rng, v iox.Variant, in []byte) []faultDesc {
 	if n > 0 {
 		out = append(out, faultDesc{Pos: n - 1, Where: "last-byte"})
 		out = append(out, faultDesc{Pos: n, Where: "at-the-end"})
+		out = append(out, faultDesc{Pos: n, Where: "at-the-end-with-last-chunk"})
 		out = append(out, faultDesc{Pos: r.Pick(n), Where: "random"})
 	}
 	return out
@@ -319,7 +320,7 @@ func (e *env) checkInput(r *vh.Rng, v iox.Variant, in []byte, kind string) {
 			}
 			fd := fd
 			fd.Once = once
-			fd.WithData = r.Chance(0.25)
+			fd.WithData = r.Chance(0.25) || fd.Where == "at-the-end-with-last-chunk"
 			fd.Kind1 = iox.FaultKinds[r.Pick(len(iox.FaultKinds))]
 			fd.Kind2 = iox.FaultKinds[r.Pick(len(iox.FaultKinds))]
 			if r.Chance(0.3) {
